@@ -41,7 +41,7 @@ is_ipv4 (const char *start, const char *end)
             }
         }
         else if (ch == '.') {
-            if (in_byte == 0 || cp[1] == 0) {
+            if (in_byte == 0 || cp + 1 >= end || cp[1] == 0) {
                 /* misplaced dot */
                 return (NO);
             }
@@ -92,7 +92,7 @@ is_ipv6 (const char *start, const char *end)
                 return (YES);
         case '.':
             /* Terminate the loop. */
-            if (field < 2 || field > 6) {
+            if (field < 2 || field > 6 || (null_field == 0 && field != 6)) {
                 /* malformed IPv4-in-IPv6 address */
                 return (NO);
             }
@@ -135,6 +135,15 @@ is_ipv6 (const char *start, const char *end)
         } break;
         } /* switch */
     } /* for (;;) */
+
+    /* the end pointer was reached: same checks as for the NUL terminator */
+    if (field < 2)
+        return (NO);
+    if (len == 0 && null_field != field - 1)
+        return (NO);
+    /* less than 8 groups are allowed with "::" only */
+    if (null_field == 0 && field != 7)
+        return (NO);
 
     return (YES);
 }
